@@ -86,6 +86,16 @@ func liftExpr(e pAst.Expression) string {
 		return n.Ident.Ident()
 	case pAst.IntLiteralExpression:
 		return strconv.FormatInt(n.Value, 10)
+	case pAst.FloatLiteralExpression:
+		return strconv.FormatFloat(n.Value, 'g', -1, 64)
+	case pAst.BoolLiteralExpression:
+		return strconv.FormatBool(n.Value)
+	case pAst.StringLiteralExpression:
+		return strconv.Quote(n.Value)
+	case pAst.NullLiteralExpression:
+		return "null"
+	case pAst.NoneLiteralExpression:
+		return "none"
 	case pAst.InfixExpression:
 		return "(" + opString(n.Operator) + " " + liftExpr(n.Lhs) + " " + liftExpr(n.Rhs) + ")"
 	case pAst.AssignExpression:
